@@ -107,6 +107,7 @@ def run(ctx, repo):
                    'running row, or calculate_factor tests the neighbour\'s distance before it evaluates the neighbour\'s factor')
     ctx.rule('R7', 'every bare whole-metre distance is classified as a running event by event_code_to_kind (automata inclusion)')
     ctx.rule('R9', 'the scan of find_row_by_distance runs to len(table) with no other exit')
+    ctx.rule('R11', 'world_best returns, for a tabulated event, the cell of its table row (one source for the open best)')
     ctx.rule('R10', 'every return of the untabulated-distance fallback of calculate_factor is computed from neighbour factors')
     ctx.rule('R8', 'data: the km column of every running row equals the distance its code denotes (get_distance folded on the code)')
     ctx.rule('R3', 'data: row "50" present per gender; running distances and standards positive')
@@ -455,6 +456,37 @@ def run(ctx, repo):
     ctx.count('returns of the untabulated-distance fallback examined', n_ret)
     if n_ret and not any(f.rule == 'R10' for f in ctx.findings):
         ctx.ok('R10', 'all %d returns of the fallback are computed from neighbour factors' % n_ret)
+    # ---- R11 one source for the open best: the tabulated arm of world_best returns the cell of the table row (the column the estimate for
+    # untabulated distances reads from the neighbour rows); a best taken from anywhere else makes the estimates inconsistent with it
+    wb = mod.func('AgeGrader.world_best')
+    trys = [t for t in ast.walk(wb) if isinstance(t, ast.Try)]
+    if not trys:
+        raise AnalysisError('world_best: no try / fallback structure')
+    envw = {}
+    for st_ in trys[0].body:
+        for a in ast.walk(st_):
+            if isinstance(a, ast.Assign) and len(a.targets) == 1 and isinstance(a.targets[0], ast.Name):
+                envw.setdefault(a.targets[0].id, []).append(a.value)
+    cols = {ast.unparse(x.slice) for h in trys[0].handlers for x in ast.walk(h) if isinstance(x, ast.Subscript) and isinstance(x.slice, ast.Constant)
+            and isinstance(x.slice.value, int) and x.slice.value >= 2}
+    for r in [x for st_ in trys[0].body for x in ast.walk(st_) if isinstance(x, ast.Return)]:
+        v = r.value
+        vals = envw.get(v.id, [v]) if isinstance(v, ast.Name) else [v]
+        for val in vals:
+            base = val
+            while isinstance(base, ast.Subscript):
+                base = base.value
+            cell = isinstance(val, ast.Subscript) and isinstance(val.slice, ast.Constant) and ast.unparse(val.slice) in (cols or {'2'}) \
+                and isinstance(base, ast.Name) and base.id in ('table',) + tuple(a.arg for a in wb.args.args)
+            if not cell and isinstance(val, ast.Subscript) and isinstance(base, ast.Name):
+                cell = any(isinstance(d_, ast.Subscript) for d_ in envw.get(base.id, [])) and isinstance(val.slice, ast.Constant)
+            if cell:
+                ctx.ok('R11', 'world_best: the tabulated arm returns the table cell %s' % unparse(val))
+            else:
+                ctx.finding('R11', '%s::AgeGrader.world_best::best of a tabulated event not read from its row' % AGE, AGE, r.lineno,
+                            'for a tabulated event world_best returns `%s`, not the cell of its table row, while the estimate for an untabulated '
+                            'distance is computed from the neighbour rows of the table: a distance just below the event gets a best above the '
+                            'event\'s own, neither between its neighbours nor increasing' % unparse(val), "world_best('f', '26M') vs world_best('f', 'MAR')")
     # ---- R7 every bare whole-metre distance is classified as a running event by the grader's classifier (else the interpolation is
     # never reached: "instead of failing"); the classifier's dispatch is read from the code, the inclusion is decided on automata
     from .. import rx
@@ -470,6 +502,9 @@ def run(ctx, repo):
         raise AnalysisError('event_code_to_kind: (kind, pattern) dispatch table not found')
     import re._parser as _sp
     bare = P.exact(list(_sp.parse(r'[1-9][0-9]*')))
+    # ... and every road spelling of a positive distance, N[.d[d]]K / N[.d[d]]M with up to three integer digits (0.45K is 450 m)
+    road_sp = rx.inter(P.exact(list(_sp.parse(r'(?:0|[1-9][0-9]{0,2})(?:\.[0-9]{1,2})?[KM]'))), P.exact(list(_sp.parse(r'[0-9.]*[1-9][0-9.]*[KM]'))))
+    bare = rx.union(bare, road_sp)
     rest = bare
     running = None
     for kind, pat in disp:
@@ -481,11 +516,11 @@ def run(ctx, repo):
     lost = rx.diff(bare, running) if running is not None else bare
     w = P.wit(lost)
     if w is None:
-        ctx.ok('R7', 'every bare whole-metre distance [1-9][0-9]* is classified as track or road by event_code_to_kind (%s)' % (
+        ctx.ok('R7', 'every bare whole-metre distance [1-9][0-9]* and every road spelling N[.dd]K / N[.dd]M of a positive distance is classified as track or road by event_code_to_kind (%s)' % (
             ', '.join('%s:%s' % kp for kp in disp)))
     else:
         ctx.finding('R7', '%s::AgeGrader.event_code_to_kind::bare distances not classified as runs' % AGE, AGE, ek.lineno,
-                    'the bare distance %r is not classified as a running event by event_code_to_kind (dispatch %s): calculate_factor and '
+                    'the distance spelling %r is not classified as a running event by event_code_to_kind (dispatch %s): calculate_factor and '
                     'world_best raise before any interpolation or end-of-table rule applies' % (w, [p_ for _k, p_ in disp]), w)
     # ---- R3 data
     n_rows = 0
